@@ -230,7 +230,7 @@ structure WFc (s : State) : Prop where
 structure WF (s : State) : Prop extends WFc s where
   alive_live : ∀ mid, (s.mons mid).alive = true → live s mid = true
 
-theorem init_wf (topo : List (Nat × Nat × Nat)) (f : Bool := false) : WF (init topo f) := by
+theorem init_wf (topo : List (Nat × Nat × Nat)) (f : Bool := true) : WF (init topo f) := by
   refine ⟨⟨⟨?_, ?_, ?_, ?_⟩, ?_, ?_⟩, ?_⟩ <;> simp [init, noMonitor, noTrainer, PoolOK]
 
 theorem gc_wf {s : State} (w : WFc s) : WF (gc s) := by
@@ -943,7 +943,7 @@ theorem stepCore_wfc {s : State} (w : WF s) (op : Op) : WFc (stepCore s op).1 :=
 
 theorem step_wf {s : State} (w : WF s) (op : Op) : WF (step s op).1 := gc_wf (stepCore_wfc w op)
 
-theorem exec_wf (topo : List (Nat × Nat × Nat)) (ops : List Op) (f : Bool := false) :
+theorem exec_wf (topo : List (Nat × Nat × Nat)) (ops : List Op) (f : Bool := true) :
     WF (exec (init topo f) ops) := by
   have : ∀ (s : State), WF s → WF (exec s ops) := by
     induction ops with
@@ -1874,5 +1874,196 @@ theorem stepCore_cellMons_frame (s : State) (op : Op) (t n : Nat) (h : addressed
           · rfl
           · simp only [delEntry_cellMons]
   | _ => simp [addressed] at h
+
+
+
+/-- where an alias can come from: an observable of the trainer, of the SAME layer, whose group
+holds the monitor under that name -/
+def AliasSource (s : State) (T : Trainer) (cell mname mid : Nat) : Prop :=
+  ∃ oname ocell, (oname, ocell) ∈ T.cells ∧ cellLayer s ocell = cellLayer s cell ∧
+    ∃ g, lookup T.groups oname = some g ∧ lookup g mname = some mid
+
+theorem findAlias_go_same_layer (s : State) (hf : s.layerFilter = true) (T : Trainer) (cell mname tags : Nat)
+    (path : Path) (obs : List (Nat × Nat)) (hobs : ∀ o ∈ obs, o ∈ T.cells) (found : Option Nat)
+    (hfound : ∀ x, found = some x → AliasSource s T cell mname x) (mid : Nat)
+    (h : findAlias.go s T cell mname tags path obs found = some mid) : AliasSource s T cell mname mid := by
+  induction obs generalizing found with
+  | nil => exact hfound mid (by simpa [findAlias.go] using h)
+  | cons o rest ih =>
+    obtain ⟨oname, ocell⟩ := o
+    have hrest : ∀ o ∈ rest, o ∈ T.cells := fun o ho => hobs o (List.mem_cons_of_mem _ ho)
+    simp only [findAlias.go] at h
+    split at h
+    · exact ih hrest found hfound h
+    · rename_i hlay
+      have hlay : cellLayer s ocell = cellLayer s cell := by
+        simp only [hf, Bool.true_and, bne_iff_ne, ne_eq, Decidable.not_not] at hlay; exact hlay
+      cases hg : lookup T.groups oname with
+      | none => simp only [hg] at h; exact ih hrest found hfound h
+      | some g =>
+        simp only [hg] at h
+        cases hm : lookup g mname with
+        | none => simp only [hm] at h; exact ih hrest found hfound h
+        | some m0 =>
+          simp only [hm] at h
+          have src : AliasSource s T cell mname m0 :=
+            ⟨oname, ocell, hobs _ List.mem_cons_self, hlay, g, hg, hm⟩
+          split at h
+          · split at h
+            · cases h; exact src
+            · exact ih hrest (some m0) (by intro x hx; cases hx; exact src) h
+          · exact ih hrest found hfound h
+
+/-! ### The static part of the state (topology, the repair switch) never changes -/
+
+structure Static (s s' : State) : Prop where
+  filter : s'.layerFilter = s.layerFilter
+  topo : s'.topo = s.topo
+
+theorem Static.refl (s : State) : Static s s := ⟨rfl, rfl⟩
+theorem Static.trans {a b c : State} (h1 : Static a b) (h2 : Static b c) : Static a c :=
+  ⟨h2.filter.trans h1.filter, h2.topo.trans h1.topo⟩
+
+theorem static_deregisterMon (s : State) (mid : Nat) : Static s (deregisterMon s mid) := ⟨rfl, rfl⟩
+theorem static_registerMon (s : State) (mid : Nat) : Static s (registerMon s mid) := by
+  unfold registerMon; split <;> exact ⟨rfl, rfl⟩
+theorem static_setTrainer (s : State) (t : Nat) (T : Trainer) : Static s (setTrainer s t T) := ⟨rfl, rfl⟩
+theorem static_newMonitor (s : State) (t : Nat) (pp : Bool) (path : Path) (tags : Option Nat)
+    (reads : List Nat) (cell : Nat) : Static s (newMonitor s t pp path tags reads cell).1 := by
+  simp only [newMonitor]
+  have h := static_registerMon (setMon { s with nMons := s.nMons + 1 } s.nMons
+    ⟨t, true, none, pp, path, tags, reads, cell, 0, 0, cellLayer s cell⟩) s.nMons
+  exact ⟨h.filter, h.topo⟩
+
+theorem static_addMonitor (s : State) (t n mname : Nat) (sel : AttrSel) (unique prepend : Bool) (tags : Nat)
+    (reads : List Nat) : Static s (addMonitor s t n mname sel unique prepend tags reads).1 := by
+  have h1 : Static s (eraseExisting s t n mname) := by
+    unfold eraseExisting; simp only; split
+    · exact static_setTrainer _ _ _
+    · exact Static.refl _
+  have h2 : ∀ (s1 : State) cell path, Static s1 (obtainMonitor s1 t cell mname unique prepend tags path reads).1 := by
+    intro s1 cell path; unfold obtainMonitor; split
+    · exact static_newMonitor ..
+    · split
+      · exact Static.refl _
+      · exact static_newMonitor ..
+  have h3 : ∀ (s2 : State) mid cell, Static s2 (addMonitorTail s2 t n mname mid cell) := by
+    intro s2 mid cell
+    unfold addMonitorTail poolInsert deregIfEval
+    refine Static.trans ?_ (static_setTrainer _ _ _)
+    split
+    · exact ⟨rfl, rfl⟩
+    · exact Static.trans (b := writeCellMon s2 cell mname mid) ⟨rfl, rfl⟩ (static_deregisterMon _ _)
+  unfold addMonitor
+  split
+  · exact Static.refl _
+  · simp only
+    split
+    · exact Static.refl _
+    · split
+      · exact h1
+      · exact (h1.trans (h2 _ _ _)).trans (h3 _ _ _)
+
+theorem static_addTemplate (tpl : List (Nat × AttrSel × Bool × Bool × Nat × List Nat)) (t n : Nat) (s : State) :
+    Static s (addTemplate s t n tpl) := by
+  induction tpl generalizing s with
+  | nil => exact Static.refl _
+  | cons e rest ih => exact (static_addMonitor ..).trans (ih _)
+
+theorem static_deregisterUnshared (shared : List Nat) (g : List (Nat × Nat)) (s : State) :
+    Static s (deregisterUnshared s shared g) := by
+  induction g generalizing s with
+  | nil => exact Static.refl _
+  | cons e rest ih =>
+    rw [deregisterUnshared_cons]; split
+    · exact ih _
+    · exact (static_deregisterMon _ _).trans (ih _)
+
+theorem static_delObserved (s : State) (t n : Nat) : Static s (delObserved s t n) := by
+  unfold delObserved; split
+  · exact Static.refl _
+  · exact (static_deregisterUnshared ..).trans (static_setTrainer _ _ _)
+
+theorem static_setAll (mode : Bool) (l : List Nat) (s : State) : Static s (setAll s mode l) := by
+  induction l generalizing s with
+  | nil => exact Static.refl _
+  | cons x rest ih =>
+    rw [setAll_cons]; split
+    · exact (static_registerMon _ _).trans (ih _)
+    · exact (static_deregisterMon _ _).trans (ih _)
+
+theorem static_delEntry (s : State) (t n mname mid : Nat) : Static s (delEntry s t n mname mid) := by
+  unfold delEntry dropEmptyGroup deregIfUnaliased eraseEntry
+  refine Static.trans ?_ (static_setTrainer _ _ _)
+  split
+  · exact static_setTrainer _ _ _
+  · exact (static_setTrainer _ _ _).trans (static_deregisterMon _ _)
+
+theorem static_step (s : State) (op : Op) : Static s (step s op).1 := by
+  have hgc : ∀ s1 : State, Static s1 (gc s1) := fun _ => ⟨rfl, rfl⟩
+  refine Static.trans ?_ (hgc _)
+  cases op with
+  | newTrainer kind => exact ⟨rfl, rfl⟩
+  | registerCell t n c v =>
+    simp only [stepCore]
+    split
+    · exact Static.refl _
+    · split
+      · exact Static.refl _
+      · split
+        · exact Static.refl _
+        · exact ((static_delObserved s t n).trans (static_setTrainer _ _ _)).trans (static_addTemplate _ _ _ _)
+  | delCell t n =>
+    simp only [stepCore]
+    split
+    · exact Static.refl _
+    · split
+      · exact Static.refl _
+      · exact (static_delObserved s t n).trans (static_setTrainer _ _ _)
+  | addMonitor t n mname sel unique prepend tags =>
+    simp only [stepCore]
+    split
+    · exact Static.refl _
+    · exact static_addMonitor ..
+  | delMonitor t n mname =>
+    simp only [stepCore]
+    split
+    · exact Static.refl _
+    · split
+      · exact Static.refl _
+      · split
+        · exact Static.refl _
+        · split
+          · exact Static.refl _
+          · exact static_delEntry ..
+  | trainerTrain t mode =>
+    simp only [stepCore]
+    split
+    · exact Static.refl _
+    · exact (static_setTrainer s t _).trans (static_setAll _ _ _)
+  | layerTrain l mode => exact ⟨rfl, rfl⟩
+  | layerStep l =>
+    simp only [stepCore]
+    split <;> exact ⟨rfl, rfl⟩
+  | trainerStep t =>
+    simp only [stepCore]
+    split
+    · exact Static.refl _
+    · split <;> exact Static.refl _
+  | clear t =>
+    simp only [stepCore]
+    split
+    · exact Static.refl _
+    · exact ⟨rfl, rfl⟩
+  | collect t =>
+    simp only [stepCore]
+    split
+    · exact Static.refl _
+    · exact static_setTrainer _ _ _
+
+theorem static_exec (ops : List Op) (s : State) : Static s (exec s ops) := by
+  induction ops generalizing s with
+  | nil => exact Static.refl _
+  | cons op ops ih => exact (static_step s op).trans (ih _)
 
 end InfernoVerif.Lifecycle
